@@ -350,10 +350,13 @@ def cost_scale(p):
 
 
 def costs_exact_in_binary(p):
-    """True iff every cost is a multiple of 1/SCALE, i.e. the library's
+    """True iff every cost is a dyadic rational, i.e. the library's
     floating-point tables are exact and 'equals the optimum' can be judged
     without a tolerance."""
-    return cost_scale(p) == SCALE
+    scale = cost_scale(p)
+    # every denominator a power of two: the doubles are the rationals, and
+    # sums of small multiples of them stay exact (53 bits are plenty)
+    return scale & (scale - 1) == 0
 
 
 def expected_cost(cls, N, p):
